@@ -16,7 +16,8 @@ EXPLANATION = (
     "INFLATE_FAST_MIN_LEFT >= 258+2, window padding >= largest chunk width N instantiated, ENOUGH sizes and root bits, "
     "scratch array sizes. WHO: Flags::SANE is only ever set (the panic on the unsupported path is unreachable). "
     "MODE: len_and_friends' unreachable_unchecked arm. ABORT: every explicit panic/assert/unwrap/expect reachable from "
-    "decode entry points is in the justified table. Implicit bounds checks, arithmetic overflow and termination are not decided.")
+    "decode entry points is in the justified table. Implicit bounds checks, arithmetic overflow and termination are not decided. "
+    "ATOM/safety-rejection: the validations whose absence turns corrupt input into an out-of-range index or window read (HLIT/HDIST limits, repeat-count overflow, distance beyond the bytes held by the window) are present with their constants in every decoder copy of inflate (dispatch, len_and_friends, fast loop). GUARD/fast-bit-budget: the fast loop refills before decoding a distance unless at least MAX_BITS + MAX_DIST_EXTRA_BITS = 28 bits are buffered.")
 
 CLAIM = dict(
     text="Static: control-dependence (dominating branch atoms over the pruned MIR CFG) of every listed unchecked "
